@@ -538,3 +538,15 @@ PROPS["C12"]["suites"]["toolarge"] = {"kind": "oracle", "nvh_suite": "toolarge",
 PROPS["C12"]["assumptions"] = ["requests are handled to quiescence one at a time (sequential model); pipelining and request timeouts are decided under C13 and by the lat suite",
                                "the RESPONSE_TOO_LARGE substitution of the connection loop is outside the Lean model; it is checked on the real server by the "
                                "toolarge suite (exactly one frame per id, the substituted ERROR carries the id, the connection stays open)"]
+
+
+# writers sharing the message pool: no hold-and-wait after 02d0f5c (Batch model), loop shape regenerated from the source
+for _p in ("C13", "C15"):
+    PROPS[_p]["theorems"] = list(PROPS[_p]["theorems"]) + ["Narwhal.Theorems.C13Batch"]
+    PROPS[_p]["audit_files"] = list(PROPS[_p]["audit_files"]) + ["Narwhal/Model/Batch.lean"]
+    PROPS[_p]["expect_theorems"] = list(PROPS[_p]["expect_theorems"]) + ["Narwhal.Batch.batch_table_ok", "Narwhal.Batch.C13_writers_never_deadlock",
+                                                                       "Narwhal.Batch.old_batching_deadlocks"]
+    PROPS[_p]["level_text"] += (" Writers sharing the message pool: proved for every interleaving of routing, writer steps and peers accepting or not "
+                                "accepting bytes that a writer waiting for a pool buffer holds none, so writers never wait only for each other (the "
+                                "old batching rule is disproved by a 10-step witness); the shape of the batch-filling loop (try_acquire, no await, buffer "
+                                "before dequeue, MAX_IOVS) is regenerated from the source on every run.")
